@@ -109,10 +109,17 @@ let judge_wrap id wc (arg : disj list) (out : disj list) =
   let npts = ref 0 and nreq = ref 0 and nmoved = ref 0 in
   let pts = product wc.cand in
   let single_poly = (match arg with [d] -> d.dg = [] | _ -> false) in
-  let lazy_models = lazy (
-    if single_poly then
-      timed (fun () -> let a = (List.hd arg).dc in (model wc a false, model wc a true))
-    else None) in
+  let all_poly = List.for_all (fun d -> d.dg = []) arg in
+  (* classification of a lost point: is it lost by the faithful generic model (and kept by the patched one) on every
+     disjunct of the argument containing its source point?  (a powerset wraps each disjunct separately) *)
+  let classify pl q =
+    if not all_poly then "no-model" else
+    match timed (fun () ->
+      List.for_all (fun d ->
+        if in_disj d (pt_of pl) then (not (rden_b (model wc d.dc false) q)) && rden_b (model wc d.dc true) q else true) arg) with
+    | Some true -> "asis-model-loses-it"
+    | Some false -> "model-keeps-it"
+    | None -> "no-model" in
   List.iter (fun pl ->
     if not !failed then begin
       let p = pt_of pl in
@@ -131,10 +138,7 @@ let judge_wrap id wc (arg : disj list) (out : disj list) =
                 if ql <> pl then incr nmoved;
                 if not (in_descr out q) then begin
                   failed := true;
-                  let tag = match Lazy.force lazy_models with
-                    | Some (asis, pat) ->
-                        if (not (rden_b asis q)) && rden_b pat q then "asis-model-loses-it" else "model-keeps-it"
-                    | None -> "no-model" in
+                  let tag = classify pl q in
                   Printf.printf "FAIL %s lost-point %s | p=%s q=%s\n" id tag (str_pt pl) (str_pt ql)
                 end
               end
